@@ -14,7 +14,7 @@ from session import tla_val   # noqa: E402
 
 ASSUME = ['the value -> yabgp dict rendering of harness/wire_map.py (documented input/output forms of Update.construct / Update.parse)',
           'TLC/SANY, CommunityModules Json/IOUtils', 'bounded value pools of spec/WireUpdate.tla (boundary values per field); not a proof about the Python code']
-FAMILIES = {'C06': ['upd'], 'C08': ['upd', 'openrt', 'notif', 'rr', 'ka'], 'C09': ['upd', 'updvar', 'cor'],
+FAMILIES = {'C06': ['upd'], 'C08': ['upd', 'updap', 'openrt', 'notif', 'rr', 'ka'], 'C09': ['upd', 'updvar', 'updap', 'cor'],
             'C14': ['open', 'openrt', 'notif', 'rr', 'ka'], 'C17': ['comm']}
 CACHE = os.path.join(os.path.dirname(HERE), '.cache')
 
